@@ -446,7 +446,7 @@ Definition clauses (prop : Z) (l : list Z) : list tree := map (fun c => clause p
 
 Definition judge (t : tree) : tree :=
   match t with
-  | T [T [L 10; pids; wms; T ops; _]; T [T decoded; assigns; steps]] =>
+  | T [T (L 10 :: pids :: wms :: T ops :: _); T [T decoded; assigns; steps]] =>
       match getZs pids, getList dec_wres wms, dec_ops ops decoded, getList dec_pair assigns, getList dec_step steps with
       | Some pids, Some wms, Some ops, Some assigns, Some steps =>
           let i := {| i_pids := pids; i_wms := wms; i_ops := ops |} in
